@@ -619,7 +619,13 @@ func (e *Exec) stepBulk(op *Op, mc *model.Coll) {
 					return
 				}
 			}
-			for id, n := range cnt {
+			cntIDs := make([]string, 0, len(cnt))
+			for id := range cnt {
+				cntIDs = append(cntIDs, id)
+			}
+			sort.Strings(cntIDs)
+			for _, id := range cntIDs {
+				n := cnt[id]
 				if !inA[id] {
 					e.fail(props, "C03/callback-count", fmt.Sprintf("%s: the update function ran %d times on document %s outside the affected set", what, n, id), feats)
 					return
@@ -1186,7 +1192,8 @@ func (e *Exec) stepImport(op *Op) {
 			e.fail([]string{"C19"}, "C19/import-count", fmt.Sprintf("%s: imported %d documents, source has %d", what, len(got), len(nc.Docs)), nil)
 			return
 		}
-		for id, wantDoc := range nc.Docs {
+		for _, id := range nc.IDs() {
+			wantDoc := nc.Docs[id]
 			g, ok := got[id]
 			if !ok {
 				e.fail([]string{"C19"}, "C19/import-ids", fmt.Sprintf("%s: source _id %s is missing from the imported collection", what, id), nil)
